@@ -336,7 +336,39 @@ def gen_weight_to_zero(rnd, i):
                      "datum %d is an outlier with weight 1e-12 x smallest weight; certificate of the problem without it" % j)
 
 
+def gen_damped_weight_to_zero(rnd, i):
+    """OPT-IN (VERIF_C02_FINDINGS=1), not part of the default run: a DAMPED spline with separate forces, one datum far from
+    the cloud with weight 1e-14.  The fit must be the fit of the problem without the datum - it is not, because
+    StandardScaler computes the column scale from all Jacobian rows, unweighted (reported finding)."""
+    n = rnd.randint(12, 24)
+    e = np.array([rnd.random() for _ in range(n)])
+    nn = np.array([rnd.random() for _ in range(n)])
+    d = np.array([rnd.gauss(0, 1) for _ in range(n)])
+    k = rnd.randint(4, 8)
+    conf = {"damping": 10.0 ** rnd.uniform(-4, 0), "mindist": None,
+            "force_coords": [[rnd.random() for _ in range(k)], [rnd.random() for _ in range(k)]]}
+    j = rnd.randrange(n)
+    e[j] = 5.0
+    d[j] += 50.0
+    w = np.ones(n)
+    w[j] = 1e-14
+    _, _, _, p, _ = fit("spline", conf, (e, nn), d, w)
+    keep = np.arange(n) != j
+    A, dr, wr, _, _ = fit("spline", conf, (e[keep], nn[keep]), d[keep], w[keep])
+    term = "c02_fit %s %s %s %s %s %s None" % (cN(A.shape[1]), dmat(A), dl(dr), dl(wr), dl(p), cD(conf["damping"]))
+    return Case({"estimator": "spline", "config": conf, "coordinates": tolist((e, nn)), "data": tolist(d), "weights": tolist(w),
+                 "metamorphic": "datum %d far away with weight 1e-14; certificate of the damped problem without it" % j},
+                {"params": p.tolist()}, term, describe("spline", conf, (e, nn), d, w), "FINDING-damped-weight-to-zero", nontrivial=True)
+
+
+def finding_key(case):
+    if case.kind == "FINDING-damped-weight-to-zero":
+        return "C02-damped-fit-zero-weight-datum-still-sets-column-scale"
+    return None
+
+
 def generate(tier, seed):
+    import os
     rnd = random.Random(seed)
     cases = []
     nfit = {"quick": (30, 36, 30), "thorough": (300, 360, 300)}[tier]
@@ -359,6 +391,9 @@ def generate(tier, seed):
         cases.append(gen_weights_times_constant(rnd, i))
     for i in range(nmeta[1]):
         cases.append(gen_weight_to_zero(rnd, i))
+    if os.environ.get("VERIF_C02_FINDINGS"):
+        for i in range(4):
+            cases.append(gen_damped_weight_to_zero(rnd, i))
     return cases
 
 
